@@ -65,7 +65,9 @@ var addrClasses = []func(r *rand.Rand) net.IP{
 		ip[0] = 0x20
 		return ip
 	},
-	func(r *rand.Rand) net.IP { return net.IP{10, byte(r.Intn(256)), byte(r.Intn(256)), byte(1 + r.Intn(254))} }, // private (redacted when skipping private hops)
+	func(r *rand.Rand) net.IP {
+		return net.IP{10, byte(r.Intn(256)), byte(r.Intn(256)), byte(1 + r.Intn(254))}
+	}, // private (redacted when skipping private hops)
 	func(r *rand.Rand) net.IP {
 		ip := make(net.IP, 16)
 		r.Read(ip)
